@@ -4,7 +4,7 @@ cd /verif || exit 2
 for d in seeded/*/; do
   s=$(basename $d)
   [ -f $d/patch.diff ] || continue
-  case $s in refactor-*) continue;; esac
+  case $s in refactor-*|not-kept) continue;; esac
   prop=$(python3 -c "import json;print(json.load(open('$d/meta.json'))['property'])")
   also=$(cat $d/also 2>/dev/null)
   det=""
